@@ -137,6 +137,23 @@ def splitInner {α : Type} (keys : List Key) (kids : List α) (sizes : List Nat)
    keys.getD sp [],
    ⟨keys.drop (sp + 1), kids.drop (sp + 1), sizes.drop (sp + 1)⟩)
 
+/-- the part of `innerInsert` after the recursive call (insert.go:150-233):
+`i` = `childIdx`, `r` = the result of inserting into the cloned child. -/
+def innerAfterInsert (B : Nat) {h : Nat} (n : Inner (Node h)) (i : Nat) (r : InsRes (Node h)) :
+    InsRes (Inner (Node h)) :=
+  -- `if !res.updated { inner.childSizes[childIdx]++ }`
+  let sizes1 := if r.updated then n.sizes else n.sizes.set i (n.sizes.getD i 0 + 1)
+  match r.split with
+  | none => ⟨⟨n.keys, n.kids.set i r.node, sizes1⟩, r.updated, none⟩
+  | some (sep, right) =>
+    let keys' := n.keys.take i ++ sep :: n.keys.drop i
+    let kids' := n.kids.take i ++ r.node :: right :: n.kids.drop (i + 1)
+    let sizes' := sizes1.take i ++ nodeSize h r.node :: nodeSize h right :: sizes1.drop (i + 1)
+    if n.keys.length < B - 1 then ⟨⟨keys', kids', sizes'⟩, r.updated, none⟩
+    else
+      let (left, sep', right') := splitInner keys' kids' sizes'
+      ⟨left, r.updated, some (sep', right')⟩
+
 /-- `nodeInsert` / `innerInsert` (insert.go:53-64, 127-234). -/
 def nodeInsert (B : Nat) : (h : Nat) → Node h → Key → Val → InsRes (Node h)
   | 0, (l : Leaf), key, v => leafInsert B l key v
@@ -144,20 +161,7 @@ def nodeInsert (B : Nat) : (h : Nat) → Node h → Key → Val → InsRes (Node
     let i := searchInner n.keys key
     match n.kids[i]? with
     | none => ⟨n, false, none⟩            -- Go: panic("inner node has nil child")
-    | some child =>
-      let r := nodeInsert B h child key v
-      -- `if !res.updated { inner.childSizes[childIdx]++ }`
-      let sizes1 := if r.updated then n.sizes else n.sizes.set i (n.sizes.getD i 0 + 1)
-      match r.split with
-      | none => ⟨⟨n.keys, n.kids.set i r.node, sizes1⟩, r.updated, none⟩
-      | some (sep, right) =>
-        let keys' := n.keys.take i ++ sep :: n.keys.drop i
-        let kids' := n.kids.take i ++ r.node :: right :: n.kids.drop (i + 1)
-        let sizes' := sizes1.take i ++ nodeSize h r.node :: nodeSize h right :: sizes1.drop (i + 1)
-        if n.keys.length < B - 1 then ⟨⟨keys', kids', sizes'⟩, r.updated, none⟩
-        else
-          let (left, sep', right') := splitInner keys' kids' sizes'
-          ⟨left, r.updated, some (sep', right')⟩
+    | some child => innerAfterInsert B n i (nodeInsert B h child key v)
 
 /-- `treeInsert` (insert.go:18-49) together with the empty-root branch of
 `MutableTree.Set` (mutable_tree.go:117-143).  Returns the new root and `updated`. -/
@@ -272,6 +276,17 @@ def fixUnderflow (B : Nat) {h : Nat} (p : Inner (Node h)) (i : Nat) : Inner (Nod
     else if i > 0 then (mergeAt p (i - 1), true)
     else (mergeAt p i, true)
 
+/-- the part of `innerRemove` after the recursive call (remove.go:91-119):
+`i` = `childIdx`, `r` = the result of removing from the cloned child (`r.found`). -/
+def innerAfterRemove (B : Nat) {h : Nat} (n : Inner (Node h)) (i : Nat) (r : RemRes (Node h)) :
+    RemRes (Inner (Node h)) :=
+  -- `inner.childSizes[childIdx]--`, child replaced by its modified clone
+  let n1 : Inner (Node h) := ⟨n.keys, n.kids.set i r.node, n.sizes.set i (n.sizes.getD i 0 - 1)⟩
+  if !r.underflow then ⟨n1, true, r.old, false⟩
+  else
+    let (n2, merged) := fixUnderflow B n1 i
+    ⟨n2, true, r.old, merged && decide (n2.keys.length + 1 < minKeys B)⟩
+
 /-- `nodeRemove` / `innerRemove` (remove.go:45-119). -/
 def nodeRemove (B : Nat) : (h : Nat) → Node h → Key → RemRes (Node h)
   | 0, (l : Leaf), key => leafRemove B l key
@@ -282,13 +297,7 @@ def nodeRemove (B : Nat) : (h : Nat) → Node h → Key → RemRes (Node h)
     | some child =>
       let r := nodeRemove B h child key
       if !r.found then ⟨n, false, [], false⟩
-      else
-        -- `inner.childSizes[childIdx]--`, child replaced by its modified clone
-        let n1 : Inner (Node h) := ⟨n.keys, n.kids.set i r.node, n.sizes.set i (n.sizes.getD i 0 - 1)⟩
-        if !r.underflow then ⟨n1, true, r.old, false⟩
-        else
-          let (n2, merged) := fixUnderflow B n1 i
-          ⟨n2, true, r.old, merged && decide (n2.keys.length + 1 < minKeys B)⟩
+      else innerAfterRemove B n i r
 
 /-- `treeRemove` (remove.go:17-43): root collapse when an inner root is left
 with a single child, `nil` root when the last key is removed.
